@@ -781,6 +781,17 @@ class AbstractExcelInPython(ABC):
             base_date = datetime.datetime(1899, 12, 30)
             return str((value - base_date).days)
 
+        if isinstance(value, self.EmptyCell) or value is None:
+            # a blank cell joins as the empty text
+            return ''
+
+        if isinstance(value, bool):
+            return 'TRUE' if value else 'FALSE'
+
+        if isinstance(value, float) and value.is_integer() and abs(value) < 1e15:
+            # a whole number is written without a fractional part
+            return str(int(value))
+
         return str(value)
 
     def _parse_date_formats(self, date: str, format: str):
